@@ -31,6 +31,10 @@ def run(ctx):
     hpackrules.table_accounting(r, F)
     r = ctx.rule('C10.R8', 'PAIR', 'encoder dynamic table: same eviction boundary and paired accounting as the decoder table')
     hpackrules.encoder_table_accounting(r, F)
+    r = ctx.rule('C10.R9', 'TABLE', 'entry size = 32 + name + value with the right pseudo-name lengths (both tables account with it); string length prefix uses the 7-bit prefix test')
+    hpackrules.entry_size(r, F)
+    r = ctx.rule('C10.R10', 'PASS', 'resumability: only fully decoded fields are consumed, every representation arm consumes (a split block inserts each literal once) (= C11.R5)')
+    hpackrules.resumability(r, F)
     r = ctx.rule('C10.R4', 'WHO', 'a header block is HPACK-encoded once')
     hpackrules.encode_once(r, F)
     r = ctx.rule('C10.R5', 'TABLE', 'Huffman ENCODE_TABLE = RFC 7541 Appendix B (257 rows)')
